@@ -175,6 +175,19 @@ def schedules(fam):
         # a call sent after the token change joins the access request that was in flight before it
         out.append(S(fam, "stalejoin", [opn("c1"), tk('"t1"'), dict(sub("c1", "a"), **st), Q, call("b"), tk('"t2"'), call("b"),
                                         dict(reply("access", "b"), **st), dict(reply("call", "b"), **st), dict(reply("call", "b"), **st), Q]))
+        # a call answered with a resource response for a resource the client already holds through a parent: access is still
+        # asked for it, and a refusal puts an error in place of the resource and leaves no direct subscription
+        out.append(S(fam, "resrespsent", [opn("c1"), tk('"t1"'), dict(sub("c1", "a"), **st), Q, call("a"), dict(reply("access", "a"), **st),
+                                          dict(reply("call", "a", out="res", arg="b"), **st), dict(reply("access", "b", out="deny"), **st), Q,
+                                          dict(unsub("c1", "a"), **st), Q, ev("b", "custom"), Q]))
+        # an access reset arrives after the access answer but before the get answer of a subscription that is loading
+        out.append(S(fam, "resetwhileloading", [opn("c1"), tk('"t1"'), dict(sub("c1", "a"), **st), dict(reply("access", "a"), **st),
+                                                {"op": "reset", "res": [], "acc": ["a"], "settle": True}, dict(reply("get", "a"), **st),
+                                                dict(reply("get", "b"), **st), dict(reply("access", "a", out="deny"), **st), Q, ev("a", "custom"), Q]))
+        # a resource response whose resource is refused while its get is still outstanding: nothing is left subscribed
+        out.append(S(fam, "deniedresresp", [opn("c1"), tk('"t1"'), call("a"), dict(reply("access", "a"), **st),
+                                            dict(reply("call", "a", out="res", arg="c"), **st), dict(reply("access", "c", out="deny"), **st),
+                                            dict(unsub("c1", "c"), **st), dict(sub("c1", "c"), **st), dict(reply("get", "c"), **st), Q]))
         # the same with a reaccess event as the trigger
         out.append(S(fam, "stalecache2", [opn("c1"), tk('"t1"'), dict(sub("c1", "a"), **st), Q, call("b"), ev("b", "reaccess", **st),
                                           dict(reply("access", "b"), **st), dict(reply("call", "b"), **st), Q,
@@ -199,4 +212,12 @@ def schedules(fam):
         out.append(S(fam, "alias2", [opn("c1"), sub("c1", "q?a=1"), conn("c1"), cache("q"), sub("c1", "q?b=1"), conn("c1"), cache("q"),
                                      reply("access", "q"), reply("access", "q"), reply("get", "q"), cache("q"), reply("get", "q"), cache("q"),
                                      Q, {"op": "mutate", "n": "q?n=1", "a": 0, "val": P("9")}, ev("q", "query"), Q]))
+    if fam == "query":
+        st = dict(settle=True)
+        # two aliases of one normalised query, the second linked to the already loaded resource; all leave while another
+        # query keeps the entry cached; a resubscribe through the second alias must fetch anew and take part in query events
+        out.append(S(fam, "stalelink", [opn("c1"), opn("c2"), dict(sub("c1", "q?c=2"), **st), dict(sub("c1", "q?a=1"), **st), Q,
+                                        dict(sub("c2", "q?b=1"), **st), Q, dict(unsub("c1", "q?a=1"), **st), dict(unsub("c2", "q?b=1"), **st), Q,
+                                        {"op": "mutate", "n": "q?n=1", "a": 0, "val": P("9")}, dict(sub("c2", "q?b=1"), **st), Q,
+                                        {"op": "mutate", "n": "q?n=1", "a": 0, "val": P("8")}, ev("q", "query"), Q]))
     return out
